@@ -1,11 +1,100 @@
-import CelmaVerif.Model.ProgArgs.Groups
-/- C01 — property theorems (under construction: see DESIGN.md) -/
-namespace CelmaVerif.Props.C01
-open CelmaVerif CelmaVerif.ProgArgs
+import CelmaVerif.Lemmas.Spelling
+import CelmaVerif.Lemmas.RulesComplete
+import CelmaVerif.Lemmas.RulesDest
+/-
+  C01 — command-line values reach their typed destinations, whatever the spelling.
 
-/-- placeholder obligation replaced by the real theorems: the model's begin iterator on a one-word
-    argv is the end iterator -/
-theorem C01_begin_single (w : Word) : (It.begin [w]).isOk = true := by
-  simp [It.begin, It.mkEnd, getWord, Res.isOk]
+  Layers: `Spells cfg last us ws` (Lemmas/Spelling.lean) lists the legal surface forms of an
+  abstract command line `us : List Use`; `Obeys` (Model/ProgArgs/Spec.lean) is the declarative
+  reading of the declared rules; `denote` (Lemmas/RulesDest.lean) is the closed form of a
+  destination in terms of the argument's own uses.
+
+  STAGE / partial: `Spells` covers one word group per use — `-c`, `--name` (exact or any
+  abbreviation that resolves), `-c v`, `--name v`, `--name=v`, `-cv`, free values behind a
+  multi-value argument.  Flags grouped behind one dash (`-abc`), value-less uses of
+  optional-value arguments (`-v` for a LevelCounter) and the `--` separator are modelled and covered
+  by the differential run but not yet by `Spells`; the theorems below are named `_partial` for that
+  reason.  Floating-point destinations are outside the modelled fragment.
+-/
+namespace CelmaVerif.Props.C01
+open CelmaVerif CelmaVerif.ProgArgs CelmaVerif.Keys
+
+/-- **Spelling invariance.**  Two command lines that spell the same abstract command line — with
+    any of the covered forms for each use, any abbreviations, any program name — are evaluated
+    identically: the same final handler state (destinations, counters, constraint state) if accepted,
+    the same exception if not. -/
+theorem C01_spelling_invariance_partial (cfg : Cfg) (h : HState) (us : List Use) (ws₁ ws₂ : List Word)
+    (prog₁ prog₂ : Word) (s1 : Spells cfg h.lastArg us ws₁) (s2 : Spells cfg h.lastArg us ws₂) :
+    evalArguments cfg h {} (prog₁ :: ws₁) = evalArguments cfg h {} (prog₂ :: ws₂) := by
+  rw [spells_eval cfg h prog₁ s1, spells_eval cfg h prog₂ s2]
+
+/-- **Values reach their destinations.**  For a well-formed configuration, an abstract command line
+    that obeys the declared rules (no deprecated argument, no LevelCounter argument — stage) and any
+    covered spelling of it: evaluation returns normally, and afterwards every destination holds
+    `denote` of its own values: not used ⇒ the previous value; flag ⇒ the value to set; int ⇒ the
+    last value converted; string ⇒ the last value; list ⇒ previous content followed by all elements
+    given, in order. -/
+theorem C01_values_reach_destinations_partial (cfg : Cfg) (wf : cfg.WellFormed) (inits : List DVal)
+    (hin : cfg.args.length ≤ inits.length) (us : List Use) (ws : List Word) (prog : Word)
+    (sp : Spells cfg none us ws) (ob : Obeys cfg inits us)
+    (notDeprecated : ∀ u ∈ us, ∀ d, cfg.args[u.arg]? = some d → d.deprecated = false)
+    (noLevel : ∀ u ∈ us, ∀ d, cfg.args[u.arg]? = some d → d.kind ≠ .level) :
+    ∃ hf, evalArguments cfg (cfg.initState inits) {} (prog :: ws) = .ok hf ∧
+      ∀ (i : Nat) (d : ArgDef) (v : DVal), cfg.args[i]? = some d → inits[i]? = some v →
+        (d.kind = .vecInt → ∃ l, v = .vec l) →
+        ∃ st, hf.args[i]? = some st ∧ st.dest = denote d v (valsOf i us) := by
+  obtain ⟨hf, he⟩ := rules_complete_partial wf hin ob notDeprecated noLevel
+  have hl : (cfg.initState inits).lastArg = none := rfl
+  refine ⟨hf, ?_, ?_⟩
+  · rw [spells_eval cfg (cfg.initState inits) prog (by rw [hl]; exact sp)]; exact he
+  · intro i d v hi hv ht
+    exact dests_denote hin he hi hv ht
+
+/-- **Unused destinations keep their value**: an argument without a use has `denote … [] = init`. -/
+theorem C01_unused_keep (d : ArgDef) (init : DVal) : denote d init [] = init := rfl
+
+/-- **Order independence**: two accepted abstract command lines that give every argument the same
+    values in the same order — in particular any reordering of uses of *distinct* arguments — leave
+    the same value in every destination. -/
+theorem C01_order_independent (cfg : Cfg) (inits : List DVal) (hin : cfg.args.length ≤ inits.length)
+    (us us' : List Use) (h h' : HState) (e : evalUses cfg (cfg.initState inits) us = .ok h)
+    (e' : evalUses cfg (cfg.initState inits) us' = .ok h') (hsame : ∀ i, valsOf i us = valsOf i us')
+    (i : Nat) (d : ArgDef) (v : DVal) (hi : cfg.args[i]? = some d) (hv : inits[i]? = some v)
+    (ht : d.kind = .vecInt → ∃ l, v = .vec l) :
+    ∃ st st', h.args[i]? = some st ∧ h'.args[i]? = some st' ∧ st.dest = st'.dest :=
+  dests_order_independent hin e e' hsame hi hv ht
+
+/-- **Nothing but the uses reaches the destinations** (converse direction, every argv, every form the
+    handler accepts — also the ones not in `Spells`): an accepted command line is the abstract
+    evaluation of the uses it logged. -/
+theorem C01_accepted_is_its_uses (cfg : Cfg) (h0 hf : HState) (argv : List Word) (hi : h0.inverted = false)
+    (he : evalArguments cfg h0 {} argv = .ok hf) :
+    ∃ us, hf.uses = h0.uses ++ us ∧ ∃ g, evalUses cfg h0 us = .ok g ∧ g.Same hf :=
+  evalArguments_replays cfg h0 hf argv hi he
+
+/-! ### non-vacuity -/
+
+namespace Ex
+def aArg : ArgDef := { key := ⟨some 'a', "alpha".toList⟩, kind := .int, vmode := .required, card := .max 1 }
+def fArg : ArgDef := { key := ⟨some 'f', []⟩, kind := .flag, vmode := .none, card := .max 1 }
+def cfg : Cfg := { args := [aArg, fArg] }
+def inits : List DVal := [.int 0, .flag false]
+def show_ (r : Res HState) : Option (List DVal) := match r with | .ok h => some (h.args.map (·.dest)) | _ => none
+end Ex
+
+open Ex in
+example : Spells cfg none [⟨0, "7".toList, true⟩, ⟨1, [], true⟩] ["--al=7".toList, "-f".toList] := by
+  refine Spells.longEq (name := "al".toList) (v := "7".toList) (k := ⟨none, "al".toList⟩) (d := aArg)
+    (by decide) (by decide) (by rfl) (by rfl) (by decide) ?_
+  exact Spells.shortFlag (c := 'f') (d := fArg) (by decide) (by rfl) (by decide) (Spells.nil _)
+
+open Ex in
+example : Spells cfg none [⟨0, "7".toList, true⟩, ⟨1, [], true⟩] ["-a7".toList, "-f".toList] := by
+  refine Spells.shortGlued (c := 'a') (v := "7".toList) (d := aArg) (by decide) (by decide) (by rfl) (by decide) ?_
+  exact Spells.shortFlag (c := 'f') (d := fArg) (by decide) (by rfl) (by decide) (Spells.nil _)
+
+open Ex in
+example : show_ (evalUses cfg (cfg.initState inits) [⟨0, "7".toList, true⟩, ⟨1, [], true⟩])
+    = some [.int 7, .flag true] := by decide
 
 end CelmaVerif.Props.C01
